@@ -49,7 +49,7 @@ CHECKS = {
     "C13": ("fault_enumeration", "E3", "every truncation offset and zero-fill of main x backup variants, both formats",
             "start_persistence never raises and yields main's state, else backup's, else empty, for every enumerated damage pattern.",
             "damage model: truncation and zero-fill only"),
-    "C14": ("model_checking", "E1+E4", "explicit-state BFS with (failing) ticks at every position (and start_persistence() deferred behind traffic in two configurations); stop()+fresh start evaluated in every distinct state, threaded gateway and asyncio gateway on the virtual loop",
+    "C14": ("model_checking", "E1+E4", "explicit-state BFS with (failing) ticks at every position (and start_persistence() deferred behind traffic in two configurations); stop()+fresh start evaluated in every distinct state, threaded gateway and asyncio gateway on the virtual loop; asyncio application coroutines (all step sequences with and without yields to the loop) ended by stop()",
             "Projection before stop() equals projection after restart in every state up to the completed depth, 5 versions x 2 formats.",
             "real files, fake Timer"),
     "C15": ("fault_enumeration", "E3+E2+E4", "fault at every operation of every save in a tick sequence, and pairs of faults in two consecutive saves (sync and asyncio); every schedule up to the preemption bound of a save against one or two concurrent messages",
@@ -114,7 +114,7 @@ def main():
         ],
         "checks": checks,
         "not_applicable": na,
-        "notes": "All checks run /repo's working tree via ./check (fresh interpreter, PYTHONHASHSEED=0). Known findings: /verif/known_findings.json (one known finding: C19 threaded emission order; 25 fixed entries over 18 fix: commits). Seeded changes and which check catches which: /verif/seeded and DESIGN.md section 12. VERIF_REPO / VERIF_EVIDENCE_DIR are used only by tools/try_seed.py to point a check at a scratch worktree.",
+        "notes": "All checks run /repo's working tree via ./check (fresh interpreter, PYTHONHASHSEED=0). Known findings: /verif/known_findings.json (one known finding: C19 threaded emission order; 26 fixed entries over 19 fix: commits). Seeded changes and which check catches which: /verif/seeded and DESIGN.md section 12. VERIF_REPO / VERIF_EVIDENCE_DIR are used only by tools/try_seed.py to point a check at a scratch worktree.",
     }
     with open(os.path.join(ROOT, "MANIFEST.json"), "w", encoding="utf-8") as fh:
         json.dump(manifest, fh, indent=1)
